@@ -26,22 +26,33 @@ def maxN1 : Nat → (Nat → K) → K
   | 0, f => f 0
   | n + 1, f => Scalar.max (maxN1 n f) (f (n + 1))
 
-/-- memoisation of the first `n` values (semantically the identity: `tab_eq`) -/
-def tab {α : Type} (n : Nat) (f : Nat → α) : Nat → α :=
-  let a := ((List.range n).map f).toArray
-  fun j => if h : j < a.size then a[j] else f j
+/-- memoisation of the first `n` values of `f` (semantically `f`: `Tab.get_of`).  A structure, not a
+function: the compiler eta-expands function-valued definitions, which would recompute the table at every call -/
+structure Tab (α : Type) where
+  arr : Array α
+  fn : Nat → α
 
-theorem tab_eq {α : Type} (n : Nat) (f : Nat → α) : tab n f = f := by
-  funext j; simp [tab]
+def Tab.of {α : Type} (n : Nat) (f : Nat → α) : Tab α := ⟨((List.range n).map f).toArray, f⟩
 
-/-- memoisation of an `n × m` table (semantically the identity: `tab2_eq`) -/
-def tab2 {α : Type} (n m : Nat) (f : Nat → Nat → α) : Nat → Nat → α :=
-  let g := tab (n * m) (fun j => f (j / m) (j % m))
-  fun a b => if b < m then g (a * m + b) else f a b
+def Tab.get {α : Type} (t : Tab α) (j : Nat) : α := if h : j < t.arr.size then t.arr[j] else t.fn j
 
-theorem tab2_eq {α : Type} (n m : Nat) (f : Nat → Nat → α) : tab2 n m f = f := by
+@[simp] theorem Tab.get_of {α : Type} (n : Nat) (f : Nat → α) : (Tab.of n f).get = f := by
+  funext j; simp [Tab.of, Tab.get]
+
+/-- memoisation of an `n × m` table (semantically `f`: `Tab2.get_of`) -/
+structure Tab2 (α : Type) where
+  tab : Tab α
+  m : Nat
+  fn : Nat → Nat → α
+
+def Tab2.of {α : Type} (n m : Nat) (f : Nat → Nat → α) : Tab2 α :=
+  ⟨Tab.of (n * m) (fun j => f (j / m) (j % m)), m, f⟩
+
+def Tab2.get {α : Type} (t : Tab2 α) (a b : Nat) : α := if b < t.m then t.tab.get (a * t.m + b) else t.fn a b
+
+@[simp] theorem Tab2.get_of {α : Type} (n m : Nat) (f : Nat → Nat → α) : (Tab2.of n m f).get = f := by
   funext a b
-  simp only [tab2, tab_eq]
+  simp only [Tab2.of, Tab2.get, Tab.get_of]
   split
   · next h =>
     have hm : 0 < m := by omega
@@ -168,19 +179,23 @@ def batchMean (B S : Nat) (f : T4 K) : Nat → K :=
 def instMean (S : Nat) (f : T4 K) : Nat → Nat → K :=
   fun b u => sumN S (fun s => f b s u 0) / ofNat S
 
-/-- `field_mean` as `[b, u]` (constant in `b` unless instance): the three branches of
+/-- `field_mean` has shape `[batch, mul]` in instance mode and `[mul]` otherwise; `reshape(-1, 1, mul, 1)`
+then broadcasts it over the batch.  We store `[rows, mul]` with `rows = B` resp. `1`; sample `b` reads row `bidx o b`. -/
+def bidx (o : Opts K) (b : Nat) : Nat := if o.inst then b else 0
+
+def rows (o : Opts K) (B : Nat) : Nat := if o.inst then B else 1
+
+/-- `field_mean` as `[row, u]`: the three branches of
 `if self.training or self.instance: (if self.instance … else …) else running_mean[irm:irm+mul]` -/
 def meanOf (o : Opts K) (st : State K) (B S : Nat) (blk : Block) (f : T4 K) : Nat → Nat → K :=
   if st.training || o.inst then
-    if o.inst then tab2 B blk.mul (instMean S f)
-    else
-      let m := tab blk.mul (batchMean B S f)
-      fun _ u => m u
+    if o.inst then instMean S f
+    else fun _ u => batchMean B S f u
   else fun _ u => st.runningMean (blk.irm + u)
 
 /-- `field - field_mean.reshape(-1, 1, mul, 1)` for scalar blocks, `field` otherwise -/
-def centred (blk : Block) (f : T4 K) (mean : Nat → Nat → K) : T4 K :=
-  if blk.isScalar then fun b s u i => f b s u i - mean b u else f
+def centred (o : Opts K) (blk : Block) (f : T4 K) (mean : Nat → Nat → K) : T4 K :=
+  if blk.isScalar then fun b s u i => f b s u i - mean (bidx o b) u else f
 
 /-- `field.pow(2).sum(3)` / `field.pow(2).mean(3)` : `[b, s, u]` -/
 def compNorm (nz : Normalization) (d : Nat) (c : T4 K) : T3 K :=
@@ -202,22 +217,20 @@ def sampleStat (o : Opts K) (S : Nat) (blk : Block) (c : T4 K) : Nat → Nat →
 def batchStat (o : Opts K) (B S : Nat) (blk : Block) (c : T4 K) : Nat → K :=
   fun u => sumN B (fun b => sampleStat o S blk c b u) / ofNat B
 
-/-- `field_norm` before `+ eps`, as `[b, u]` -/
+/-- `field_norm` before `+ eps`, as `[row, u]` -/
 def normOf (o : Opts K) (st : State K) (B S : Nat) (blk : Block) (c : T4 K) : Nat → Nat → K :=
   if st.training || o.inst then
-    if o.inst then tab2 B blk.mul (sampleStat o S blk c)
-    else
-      let v := tab blk.mul (batchStat o B S blk c)
-      fun _ u => v u
+    if o.inst then sampleStat o S blk c
+    else fun _ u => batchStat o B S blk c u
   else fun _ u => st.runningVar (blk.irv + u)
 
-/-- `(field_norm + eps).pow(-0.5)` then `* weight[iw:iw+mul]` if affine -/
+/-- `(field_norm + eps).pow(-0.5)` then `* weight[iw:iw+mul]` if affine : `[row, u]` -/
 def scaleOf (o : Opts K) (st : State K) (blk : Block) (nrm : Nat → Nat → K) : Nat → Nat → K :=
-  if o.affine then fun b u => one / sqrt (nrm b u + o.eps) * st.weight (blk.iw + u)
-  else fun b u => one / sqrt (nrm b u + o.eps)
+  if o.affine then fun r u => one / sqrt (nrm r u + o.eps) * st.weight (blk.iw + u)
+  else fun r u => one / sqrt (nrm r u + o.eps)
 
-/-- what one loop iteration computes: `field_mean` `[b,u]` (scalar blocks), `field_norm` before `+ eps`
-`[b,u]`, and the output field `[b,s,u,i]` -/
+/-- what one loop iteration computes: `field_mean` `[row,u]` (used by scalar blocks only), `field_norm` before
+`+ eps` `[row,u]`, and the output field `[b,s,u,i]` -/
 structure BlockRes (K : Type) where
   mean : Nat → Nat → K
   norm : Nat → Nat → K
@@ -225,16 +238,15 @@ structure BlockRes (K : Type) where
 
 def blockRes (o : Opts K) (st : State K) (B S : Nat) (x : T3 K) (blk : Block) : BlockRes K :=
   let f := field x blk
-  let mean := meanOf o st B S blk f
-  let c := centred blk f mean
-  let nrm := normOf o st B S blk c
-  let sc0 := scaleOf o st blk nrm
-  let sc := if o.inst then tab2 B blk.mul sc0 else (let t := tab blk.mul (sc0 0); fun _ u => t u)
-  { mean := mean, norm := nrm,
+  let meanT := Tab2.of (rows o B) blk.mul (meanOf o st B S blk f)
+  let c := centred o blk f meanT.get
+  let nrmT := Tab2.of (rows o B) blk.mul (normOf o st B S blk c)
+  let scT := Tab2.of (rows o B) blk.mul (scaleOf o st blk nrmT.get)
+  { mean := meanT.get, norm := nrmT.get,
     out :=
       if o.affine && o.includeBias && blk.isScalar then
-        fun b s u i => c b s u i * sc b u + st.bias (blk.ib + u)
-      else fun b s u i => c b s u i * sc b u }
+        fun b s u i => c b s u i * scT.get (bidx o b) u + st.bias (blk.ib + u)
+      else fun b s u i => c b s u i * scT.get (bidx o b) u }
 
 /-- entry appended to `new_means` by a (scalar) block: `_roll_avg(running_mean[irm:irm+mul], field_mean)` -/
 def newMeanChunk (o : Opts K) (st : State K) (p : Block × BlockRes K) : Chunk K :=
@@ -257,9 +269,11 @@ def forwardCore (o : Opts K) (st : State K) (B S : Nat) (x : T3 K) : State K × 
     if st.training && !o.inst then
       let newMeans := (res.filter (·.1.isScalar)).map (newMeanChunk o st)
       let newVars := res.map (newVarChunk o st)
+      let rm := Tab.of o.irreps.numScalar (cat newMeans)
+      let rv := Tab.of o.irreps.numIrreps (cat newVars)
       { st with
-        runningMean := if newMeans.isEmpty then st.runningMean else tab o.irreps.numScalar (cat newMeans)
-        runningVar := if newVars.isEmpty then st.runningVar else tab o.irreps.numIrreps (cat newVars) }
+        runningMean := if newMeans.isEmpty then st.runningMean else rm.get
+        runningVar := if newVars.isEmpty then st.runningVar else rv.get }
     else st
   (st', y)
 
